@@ -1,0 +1,9 @@
+//go:build verif
+
+package announce
+
+import pubsub "github.com/libp2p/go-libp2p-pubsub"
+
+// VerifTopic returns the gossip pubsub topic the Receiver subscribes to, or nil if
+// it has none. Test-only accessor for the verification harness (build tag verif).
+func (r *Receiver) VerifTopic() *pubsub.Topic { return r.topic }
